@@ -68,6 +68,11 @@ FLOORS = {
     'node:date-time-xsd11': (0.04, 'node'),
     'node:date-time-special-year': (0.01, 'node'),
     'schema:xsd1.1': (0.35, 'schema'),
+    'history:twin-shared-name': (0.50, 'history:twin'),
+    'history:twin-valid': (0.99, 'history:twin'),
+    'node:nil-1': (0.005, 'node'),
+    'node:nil-padded': (0.003, 'node'),
+    'instance:nil-false': (0.02, 'instance'),
 }
 
 XS, XSI = G.XS, G.XSI
@@ -122,6 +127,8 @@ def canon_py(v) -> str:
     if isinstance(v, int):
         return str(int(v))
     if isinstance(v, Decimal):
+        if not v.is_finite():
+            return 'NaN' if v.is_nan() else ('INF' if v > 0 else '-INF')
         if v == v.to_integral_value():
             return str(int(v))
         s = format(v, 'f')
@@ -137,6 +144,14 @@ def canon_py(v) -> str:
     if hasattr(v, 'local_name') and hasattr(v, 'uri'):
         return '{%s}%s' % (v.uri or '', v.local_name)
     return str(v)
+
+
+def canon_safe(v) -> str:
+    """canon_py that never raises: a value that cannot be rendered is a value that differs"""
+    try:
+        return canon_py(v)
+    except Exception as e:      # e.g. str() of a half-built date object
+        return f'<{type(v).__name__}: {type(e).__name__}>'
 
 
 def ref_canon(builtin: str, lexical: str, decoded) -> str:
@@ -263,7 +278,15 @@ class Built:
             elem.set('{%s}type' % XSI, _typeref_prefixed(spec, node['xsi']))
         if node['nil']:
             self.flags.add('nil')
-            elem.set('{%s}nil' % XSI, 'true')
+            spelling = 'true' if node['nil'] is True else node['nil']
+            elem.set('{%s}nil' % XSI, spelling)
+            if spelling != spelling.strip():
+                self.flags.add('nil-padded')
+            elif spelling == '1':
+                self.flags.add('nil-1')
+        elif node.get('nilattr'):
+            self.flags.add('nil-false')
+            elem.set('{%s}nil' % XSI, node['nilattr'])
         # attributes
         present = dict((k, v) for k, v in node['attrs'])
         declared = res['attrs'] if res['variety'] in ('sc', 'eo') else []
@@ -290,7 +313,8 @@ class Built:
         if res['variety'] == 'eo':
             self.records.append({'kind': 'elem', 'xpath': xpath, 'addr': addr, 'res': res, 'lexical': None,
                                  'source': 'nil' if node['nil'] else 'element-only', 'typeref': None, 'p': node['p'],
-                                 'attr': None, 'xsi': node['xsi'], 'nil': node['nil']})
+                                 'attr': None, 'xsi': node['xsi'], 'nil': node['nil'],
+                                 'nil_padded': isinstance(node['nil'], str) and node['nil'] != node['nil'].strip()})
             counts: dict = {}
             for i, k in enumerate(node['kids']):
                 child = self.mod.SubElement(elem, self._tag(spec, k))
@@ -317,7 +341,8 @@ class Built:
                                              else decl.get('fixed') if decl.get('fixed') is not None else ''))
         self.records.append({'kind': 'elem', 'xpath': xpath, 'addr': addr, 'res': res, 'lexical': lexical,
                              'source': source, 'typeref': t if isinstance(t, str) else None, 'p': node['p'],
-                             'attr': None, 'xsi': node['xsi'], 'nil': node['nil']})
+                             'attr': None, 'xsi': node['xsi'], 'nil': node['nil'],
+                             'nil_padded': isinstance(node['nil'], str) and node['nil'] != node['nil'].strip()})
 
 
 def xs_component(schema, spec, rec):
@@ -539,6 +564,13 @@ def judge_nodes(case, rec: Recorder | None = None) -> list[Disc]:
             if r['source'] in ('default', 'fixed'):
                 classes.append('node:value-constraint')
             ds = _judge_node(ev, b, spec, schema, r, pidx, xsd)
+            if r.get('nil_padded'):
+                # xsi:nil spelled with surrounding whitespace (' true ', '1 '): a class of its own
+                classes.append('node:nil-padded')
+                for d in ds:
+                    d.bucket = d.bucket.replace('C20/', 'C20/nil-padded/', 1)
+            elif r['nil'] == '1':
+                classes.append('node:nil-1')
             discs.extend(ds)
             if rec is not None:
                 rec.case([shash, ihash, r['xpath']], nontrivial=nontrivial, classes=classes,
@@ -610,10 +642,7 @@ def _judge_node(ev, b, spec, schema, r, pidx, xsd) -> list[Disc]:
                         discs.append(Disc(f'C20/typed/{container}/class/{k}',
                                           f'instance of {cls.__name__} (xs:{bi}, XSD {xsd})',
                                           f'{type(g).__name__} {g!r}', where))
-                    try:
-                        gc = canon_py(g)
-                    except Exception as e:
-                        gc = f'<{type(e).__name__}>'
+                    gc = canon_safe(g)
                     if gc != cv:
                         discs.append(Disc(f'C20/typed/{container}/value/{k}/{G.builtin_primitive(bi)}',
                                           cv, gc, where))
@@ -877,6 +906,24 @@ def judge_select(case, rec: Recorder | None = None) -> list[Disc]:
 # sub-check: re-applying / removing the schema on a context that was already used
 # --------------------------------------------------------------------------
 
+def _proxy_across_build(spec, b, ns, pidx, probe, all_nodes):
+    import xmlschema
+    from elementpath import XPathContext
+    cls = xmlschema.XMLSchema11 if spec['xsd'] == '1.1' else xmlschema.XMLSchema10
+    pcls = parser_classes()[pidx][1]
+    schema2 = cls(G.render_xsd(spec), build=False)
+    proxy = schema2.xpath_proxy
+    try:
+        pcls(namespaces=ns, schema=proxy).parse(probe).get_results(XPathContext(b.tree, namespaces=ns, schema=proxy))
+    except Exception:        # whatever an unbuilt schema gives is not judged
+        pass
+    schema2.build()
+    parser = pcls(namespaces=ns, schema=proxy)
+    vals = parser.parse(probe).get_results(XPathContext(b.tree, namespaces=ns, schema=proxy))
+    nodes = [_address(b, n) for n in parser.parse(all_nodes).select(XPathContext(b.tree, namespaces=ns, schema=proxy))]
+    return vals, nodes
+
+
 def judge_reapply(case, rec: Recorder | None = None) -> list[Disc]:
     from elementpath.datatypes import UntypedAtomic
     spec = case['spec']
@@ -934,6 +981,11 @@ def judge_reapply(case, rec: Recorder | None = None) -> list[Disc]:
             ctx2 = XPathContext(root_node, namespaces=ns)
             h4 = run(ctx2, True, probe)
             n4 = addrs(ctx2, True)
+            h5 = n5 = None
+            if ii == 0:
+                # history: ONE proxy object taken from a schema that is not built yet, used once (nodes come out
+                # untyped: no verdict), then the schema is built and the same proxy is used again
+                h5, n5 = _proxy_across_build(spec, b, ns, pidx, probe, all_nodes)
         except Exception as e:
             discs.append(Disc(esc_bucket('reapply', e), 'no exception', repr(e), where))
             if rec is not None:
@@ -941,17 +993,21 @@ def judge_reapply(case, rec: Recorder | None = None) -> list[Disc]:
             continue
 
         def sig(vals):
-            return [(type(v).__name__, canon_py(v)) for v in vals]
+            return [(type(v).__name__, canon_safe(v)) for v in vals]
 
         for tag, got, want in (('set-after-use', h1, fresh), ('set-again', h3, fresh), ('first-use', h0, plain),
-                               ('removed', h2, plain), ('apply-on-iterated-tree', h4, fresh)):
-            if sig(got) != sig(want):
+                               ('removed', h2, plain), ('apply-on-iterated-tree', h4, fresh),
+                               ('proxy-kept-across-build', h5, fresh)):
+            if got is not None and sig(got) != sig(want):
                 i = next((k for k, (x, y) in enumerate(zip(sig(got), sig(want))) if x != y), min(len(got), len(want)))
                 discs.append(Disc(f'C20/reapply/values/{tag}', sig(want)[max(0, i - 1):i + 2], sig(got)[max(0, i - 1):i + 2],
                                   where + f' differs at item {i}'))
         for tag, got, want in (('set-after-use', n1, fresh_nodes), ('set-again', n3, fresh_nodes),
                                ('first-use', n0, plain_nodes), ('removed', n2, plain_nodes),
-                               ('apply-on-iterated-tree', n4, fresh_nodes)):
+                               ('apply-on-iterated-tree', n4, fresh_nodes),
+                               ('proxy-kept-across-build', n5, fresh_nodes)):
+            if got is None:
+                continue
             # compared as sets: document order between a defaulted attribute and the children is not judged here
             if sorted(got, key=repr) != sorted(want, key=repr):
                 d = sorted(set(got) ^ set(want), key=repr)
@@ -972,14 +1028,60 @@ _STRAT = G.case()
 _JUDGES = {'nodes': judge_nodes, 'select': judge_select, 'reapply': judge_reapply}
 
 
+def judge_twin(case, rec: Recorder | None = None) -> list[Disc]:
+    """Two schema objects in one process whose named types share {ns}name but not the base type, used alternately:
+    twin, A (first instance), twin (in the `all` job A has been evaluated just before as well). Every evaluation is judged like in `nodes` (same buckets: the failing input class is the same)."""
+    tw = case.get('twin')
+    if not tw:
+        return []
+    a = {'spec': case['spec'], 'instances': case['instances'][:1], 'paths': [], 'tree': case['tree']}
+    t = {'spec': tw['spec'], 'instances': tw['instances'], 'paths': [], 'tree': case['tree']}
+    discs: list[Disc] = []
+    for sub in (t, a, t):
+        discs += judge_nodes(sub, None)
+    if rec is not None:
+        own = G.types_by_name(case['spec'])
+        shared = [x['name'] for x in tw['spec']['types'] if x['name'] in own]
+        ts = compile_schema(tw['spec'])
+        ok = not isinstance(ts, Exception) and all(
+            validate(ts, Built(tw['spec'], i, case['tree'], False).tree, namespaces_of(tw['spec'])) for i in tw['instances'])
+        rec.case([h64(case['spec']), h64(tw), 'twin'], nontrivial=bool(shared),
+                 classes=['history:twin'] + (['history:twin-shared-name'] if shared else []) +
+                 (['history:twin-valid'] if ok else []),
+                 sample={'check': 'twin', 'shared_type_names': shared})
+    # the same discrepancy is seen twice by construction
+    seen, out = set(), []
+    for d in discs:
+        if (d.bucket, d.detail) not in seen:
+            seen.add((d.bucket, d.detail))
+            out.append(d)
+    return out
+
+
+def _guard(name, fn, case, rec) -> list[Disc]:
+    """An exception that passed through elementpath code and reached the harness outside an evaluation call is a
+    discrepancy (a change in elementpath must not crash the shard); one with no elementpath frame is a harness bug
+    and propagates."""
+    try:
+        return fn(case, rec)
+    except Exception as e:
+        b = escape_bucket('C20', e)
+        if b.endswith('@outside'):
+            raise
+        return [Disc(b.replace('C20/escape/', f'C20/{name}/escape-outside-evaluation/'), 'no exception', repr(e),
+                     f'tree={case["tree"]}')]
+
+
 def judge_all(case, rec: Recorder | None = None) -> list[Disc]:
-    discs = judge_nodes(case, rec)
-    discs += judge_select(case, rec)
-    discs += judge_reapply(case, rec)
+    discs = _guard('nodes', judge_nodes, case, rec)
+    discs += _guard('select', judge_select, case, rec)
+    discs += _guard('reapply', judge_reapply, case, rec)
+    discs += _guard('twin', judge_twin, case, rec)
     return discs
 
 
 _JUDGES['all'] = judge_all
+_JUDGES['twin'] = judge_twin
 
 
 def selftest():
@@ -1026,7 +1128,7 @@ def selftest():
 def jobs(tier, seed):
     q = tier == 'quick'
     shards = 16
-    n = 90 if q else 900
+    n = 80 if q else 800
     return [{'check': 'all', 'shard': i, 'n': n, 'seed': derive_seed(seed, 'C20', 'all', i)} for i in range(shards)]
 
 
